@@ -5,7 +5,6 @@ sys.path.insert(0, '/verif')
 NA = {
  'C01': 'whole-pipeline determinism of mj_step over arbitrary models: no bounded encoding of the full engine is within reach of the IR executor; the state-copy part is claimed under C26',
  'C02': 'needs the full engine under threads; only the dispatch protocol (C03) and the allocator (C19) are encodable',
- 'C08': 'multi-step floating-point trajectories and convergence order; not a bounded SMT query',
  'C09': 'depends on converged iterative solvers over the whole pipeline',
  'C10': 'iterative Newton/CG/PGS convergence; only the shared cost/force law is encodable (C11, C12)',
  'C15': 'GJK/EPA: iterative geometric search with data-dependent termination',
